@@ -77,6 +77,18 @@ example (F : String) (a : Expr) : toGo F (.call "bool" [a]) = none :=
 example (F : String) (t : Expr) : toGo F (.mcall "size" t []) = none :=
   c10_unknown_method_refused F "size" t [] (by intro x as; simp [methodText])
 
+/-- the proved fragment is never refused: for these expressions generation goes through -/
+theorem c10_fragment_accepted (F : String) (e : BoolE) : refuses F e.toExpr = false := by
+  obtain ⟨f, hf, _⟩ := c10_structure F e
+  simp [refuses, hf]
+
+/-- an index expression over covered operands IS refused (it used to be printed as `true`) -/
+theorem c10_index_refused (F : String) (a b : Expr) (ha : hasUnmodelled a = false) (hb : hasUnmodelled b = false) :
+    refuses F (.call "_[_]" [a, b]) = true := by
+  have h : toGo F (.call "_[_]" [a, b]) = none :=
+    c10_unknown_function_refused F "_[_]" [a, b] (by intro as; simp [builtinText]) (by decide) (by decide) (by decide) (by decide) (by decide)
+  simp [refuses, h, hasUnmodelled, anyUnmodelled, ha, hb]
+
 /-! ### why the parentheses matter: the flat text of the translator BEFORE the fix (`fix:` commit
     recorded in known_findings.json) for `(value + 1) * 2 > 10` parses to a different tree -/
 
